@@ -3,6 +3,7 @@ C10 — Output whitespace obeys line_endings and indent settings (the mechanisms
 Property theorems and non-vacuity examples only; helper lemmas are in Lemmas/Trivia.lean.
 -/
 import StyluaModel.Lemmas.Trivia
+import StyluaModel.Lemmas.Eof
 
 namespace StyluaModel.C10
 open StyluaModel.Trivia StyluaModel.TriviaLemmas StyluaModel.StrLit
@@ -81,6 +82,32 @@ theorem C10_block_crlf (lvl : Nat) (t : List Char) (h : noLoneCR t = true) :
 /-- the hypothesis is needed: a lone carriage return is passed through untouched -/
 theorem C10_lone_cr_passes :
     fmtText ['\n'] (.block 0) ['a', '\r', 'b'] = ['a', '\r', 'b'] := by decide
+
+/-- **end of file**: when the end of the file is formatted, what follows the last statement's own
+line ending is either nothing, or ends with a comment followed by exactly one line ending - never
+blank lines, never indentation, never a missing final newline (whatever blank lines, spaces and
+comments the input had there) -/
+theorem C10_eof_one_newline (eol : List Char) (lead : List Triv) (o : List Out)
+    (h : Eof.fmtEof eol true lead = some o) :
+    o = [] ∨ ∃ pre k t, o = pre ++ [.comment k t, .newline] := by
+  simp only [Eof.fmtEof, Bool.not_true, Bool.false_eq_true, if_false, Option.some.injEq] at h
+  split at h
+  · left; exact h.symm
+  · right
+    rcases EofLemmas.popWs_last (load eol .leading lead) with hp | ⟨pre, k, t, hp⟩
+    · -- nothing but whitespace would have been left: excluded by the branch
+      rename_i hall
+      exfalso
+      apply hall
+      have hc : commentsOut (load eol .leading lead) = [] := by
+        rw [← EofLemmas.commentsOut_popWs, hp]; rfl
+      clear h hp
+      generalize load eol .leading lead = l at hc ⊢
+      induction l with
+      | nil => rfl
+      | cons x xs ih =>
+        cases x <;> simp_all [commentsOut, Eof.isWsOut]
+    · exact ⟨pre, k, t, by rw [← h, hp]; simp⟩
 
 /-! ## non-vacuity -/
 example : noLoneCR "one\r\ntwo\nthree".toList = true ∧
